@@ -19,7 +19,7 @@ RULE = (
     "reference (for the no-@ case: raises); control => compiles and the regex contains no '@'. Non-trivial: distinct (fault kind, definition placement) cells; distinct by canonical hash."
 )
 ASSUMPTIONS = ["names and operand vocabularies are @-free by construction, so an '@' in the regex can only come from an unexpanded reference"]
-FAULTS = ["control", "control", "item", "operand", "deref-value", "key-times", "key-operands", "under-or", "under-not", "in-body-first", "in-body-last", "delete-def", "unpassed-file", "no-at-name", "alias-to-undefined", "shared-lib-second-rule", "in-name", "defined-but-applied-earlier", "cyclic"]
+FAULTS = ["control", "control", "item", "operand", "deref-value", "key-times", "key-operands", "under-or", "under-not", "in-body-first", "in-body-last", "delete-def", "unpassed-file", "no-at-name", "alias-to-undefined", "shared-lib-second-rule", "in-name", "defined-but-applied-earlier", "cyclic", "in-name-next-to-defined", "in-name-next-to-defined"]
 FLOORS = {f"fault={f}": 0.03 for f in set(FAULTS)}
 UNDEF = ["@zz_", "@undefined_", "@nope_", "@64bit_", "@8_", "@2nd-op_", "@Q.x_"]  # also names that are not identifiers
 
@@ -85,6 +85,16 @@ def cases(draw):
         where = draw(st.sampled_from(["mnemonic", "operand", "mnemonic-with-operands", "key-times"]))
         c, i = draw(st.sampled_from(items))
         node = {"mnemonic": "x" + u, "operand": {"mov": ["%" + u]}, "mnemonic-with-operands": {"re" + u: ["rax"]}, "key-times": {"no" + u: {"times": 2}}}[where]
+        c.insert(draw(st.integers(0, len(c))), node)
+    elif fault == "in-name-next-to-defined":
+        # two references in ONE name: a defined string macro (expanded by splicing) and, in the same string, the undefined one - what is
+        # left after the splice still has to be looked at
+        sdef = {"name": "@ystr_", "pattern": draw(st.sampled_from(["[a-d]x", "r[0-9]+", "mov"]))}
+        macros = macros + [sdef] if draw(st.booleans()) else [sdef] + macros
+        text = draw(st.sampled_from(["x@ystr_" + u, "%@ystr_(" + u + ")", "mo@ystr_" + u, "p@ystr_" + "q" + u, "%" + u + "x@ystr_"]))
+        where = draw(st.sampled_from(["mnemonic", "operand", "operand", "deref-value", "mnemonic-with-operands"]))
+        c, i = draw(st.sampled_from(items))
+        node = {"mnemonic": text, "operand": {"mov": [text]}, "deref-value": {"mov": [{"$deref": {"main_reg": text}}]}, "mnemonic-with-operands": {text: ["rax"]}}[where]
         c.insert(draw(st.integers(0, len(c))), node)
     elif fault == "defined-but-applied-earlier":
         # @yearly_ HAS a definition, but it is applied before the macro whose body mentions it (listed earlier, or supplied by an
